@@ -151,6 +151,16 @@ CLAIMS = {
          "lattice point on both'; geometer's is_degenerate/components (single and collection), NotReducible for irreducible "
          "quadrics and Conic.intersect(Conic) (at most four, each on both, every common point present) are compared.",
     design="5/C15", technique="TLC enumeration of component pairs and of conic pencils with known base points + replay"),
+ "C19": dict(
+    text="C19_Index.tla transcribes numpy's indexing rules (Ellipsis expansion, integers turning advanced next to arrays, masks "
+         "consuming their rank, adjacency judged on the original tuple, placement of the broadcast block) into a model that "
+         "yields result shape and per-axis provenance, certifies provenance injectivity / type inheritance / the rank law, and "
+         "is itself checked against numpy's result shape on every case; TLC enumerates every index expression up to length 3 (4) "
+         "over nine item kinds x every tensor up to rank 3 (4) with every placement of collection/covariant/contravariant axes; "
+         "C19_Arith.tla gives exact rational results for the operator x operand-kind table (tensor, ndarray, broadcast row, "
+         "python/numpy scalars, left and right, numpy ufuncs), affine point arithmetic with points at infinity and non-normalised "
+         "representatives, and transpose in permutation and cycle notation.",
+    design="5/C19", technique="TLC enumeration of index expressions against a numpy-indexing model + exact arithmetic table + replay"),
 }
 
 checks = []
